@@ -10,8 +10,11 @@ package main
 
 import (
 	"fmt"
+	"go/ast"
 	"go/token"
 	"go/types"
+
+	"golang.org/x/tools/go/packages"
 
 	"golang.org/x/tools/go/ssa"
 )
@@ -101,5 +104,53 @@ func ReportWordWidth(w *World, r *Report, names ...string) {
 			}
 		})
 		r.Check(bad == "", "R-WORDWIDTH", n, w.Pos(fn.Pos()), bad, fmt.Sprintf("%d platform-width bit operations, none on a 64-bit word", nsites))
+	}
+}
+
+// ReportConstWidth: package-level constants must not be computed through platform-sized types
+// (`int64(^uint(0) >> 1)` is MaxInt64 on amd64 and MaxInt32 on 386).
+func ReportConstWidth(w *World, r *Report, shorts ...string) {
+	r.Rule("R-CONSTWIDTH", "no package-level constant of the property's packages is computed through a conversion to int, uint or uintptr: such a constant has a different value on 32-bit platforms")
+	for _, sp := range shorts {
+		var pk *packages.Package
+		for _, p := range w.Pkgs {
+			if p.Types != nil && w.Short(p.Types) == sp {
+				pk = p
+			}
+		}
+		if pk == nil {
+			continue
+		}
+		bad := ""
+		nconst := 0
+		for _, f := range pk.Syntax {
+			for _, d := range f.Decls {
+				gd, ok := d.(*ast.GenDecl)
+				if !ok || gd.Tok != token.CONST {
+					continue
+				}
+				for _, sp := range gd.Specs {
+					vs := sp.(*ast.ValueSpec)
+					for i, val := range vs.Values {
+						nconst++
+						ast.Inspect(val, func(n ast.Node) bool {
+							call, ok := n.(*ast.CallExpr)
+							if !ok {
+								return true
+							}
+							if tv, ok := pk.TypesInfo.Types[call.Fun]; ok && tv.IsType() && platformSized(tv.Type) {
+								name := "?"
+								if i < len(vs.Names) {
+									name = vs.Names[i].Name
+								}
+								bad = fmt.Sprintf("constant %s is computed through %s at %s", name, tv.Type, w.Pos(call.Pos()))
+							}
+							return true
+						})
+					}
+				}
+			}
+		}
+		r.Check(bad == "", "R-CONSTWIDTH", sp, "-", bad, fmt.Sprintf("%d constant initialisers, none uses a platform-sized type", nconst))
 	}
 }
